@@ -17,6 +17,10 @@ ProgDef ==
             [s \in Senders |-> CASE s = "a" -> <<D("small", FALSE), D("small", TRUE), D("small", FALSE)>>
                                  [] s = "b" -> <<D("large", TRUE), D("small", FALSE)>>
                                  [] OTHER -> <<Ping>>]
+      [] ProgSel = "ovr2" ->     \* a large shared-context send in flight, small sends with and without override
+            [s \in Senders |-> CASE s = "a" -> <<D("small", FALSE), D("large", FALSE)>>
+                                 [] s = "b" -> <<D("small", TRUE), D("small", FALSE)>>
+                                 [] OTHER -> <<D("small", FALSE), D("small", TRUE)>>]
       [] ProgSel = "close" ->
             [s \in Senders |-> CASE s = "a" -> <<D("large", FALSE), D("small", FALSE)>>
                                  [] s = "b" -> <<Close, D("small", FALSE)>>
